@@ -34,9 +34,12 @@ type c10Emb struct {
 	Name string
 }
 
+// PtrOnly is a method with a pointer receiver: reachable through a pointer, not on a value passed by value
+func (e *c10Emb) PtrOnly() string { return "ptr-method-of-" + e.Name }
+
 type c10Call struct {
 	Entry string `json:"entry"`
-	Data  int    `json:"data"` // 0 nil, 1 string, 2 map, 3 struct with embedded pointer, 4 same with a nil embedded pointer
+	Data  int    `json:"data"` // 0 nil, 1 string, 2 map, 3 struct with embedded pointer, 4 same with a nil embedded pointer, 5 the struct by value
 	Vars  int    `json:"vars"` // 0 nil VarMap, 1 VarMap with values
 	// >0: the io.Writer accepts this many bytes and then fails every write
 	WriterFailsAfter int `json:"writer_fails_after,omitempty"`
@@ -91,7 +94,7 @@ func genC10(t *rapid.T) c10Case {
 	c := c10Case{Prog: g.p}
 	n := rapid.IntRange(3, 8).Draw(t, "ntemplates")
 	for i := 0; i < n; i++ {
-		kind := rapid.SampledFrom([]string{"ordinary", "failing", "failing", "probing", "probing", "embprobe", "returning", "nested-ranges", "trying", "publishing", "relinclude", "positional"}).Draw(t, "kind")
+		kind := rapid.SampledFrom([]string{"ordinary", "failing", "failing", "probing", "probing", "embprobe", "returning", "nested-ranges", "trying", "publishing", "relinclude", "positional", "ptrmethod", "mapbuilder"}).Draw(t, "kind")
 		path := c10EntryPath(i, kind)
 		var body []*mj.Node
 		rt := mj.Print(mj.Call("rtprobe"))
@@ -140,6 +143,14 @@ func genC10(t *rapid.T) c10Case {
 			g.p.Files = append(g.p.Files, &mj.File{Path: fmt.Sprintf("/pos/p%d.jet", i), Extends: "/lay/pos.jet", Body: []*mj.Node{
 				{K: "block", Name: "row", Params: []mj.Param{{Name: names[0], E: mj.Str("d0")}, {Name: names[1], E: mj.Str("d1")}}, Body: []*mj.Node{mj.Text("[row of p:"), mj.Print(mj.Var(names[0])), mj.Text("|"), mj.Print(mj.Var(names[1])), mj.Text("]")}}}})
 			body = []*mj.Node{{K: "include", E: mj.Str(fmt.Sprintf("/pos/p%d.jet", i))}}
+		case "ptrmethod":
+			// calls a pointer-receiver method of the context: fine for data handed over as a pointer, an error for the
+			// same struct handed over by value - in whatever order the two executions come
+			body = []*mj.Node{mj.Text("[ptrmethod:"), {K: "fail", Src: ".PtrOnly()", Class: "not-modelled"}, mj.Text("]")}
+		case "mapbuilder":
+			// builds a map of its own from an empty map(): nothing of it may be there the next time
+			body = []*mj.Node{{K: "fail", Src: "mb := map()", Class: "not-modelled"}, {K: "fail", Src: `mb.k = "v"`, Class: "not-modelled"}, {K: "fail", Src: `mb.ctx = .`, Class: "not-modelled"}, mj.Text("[built "), {K: "fail", Src: "len(mb)", Class: "not-modelled"}, mj.Text("]"),
+				{K: "fail", Src: "sb := slice()", Class: "not-modelled"}, mj.Text("[empty slice "), {K: "fail", Src: "len(sb)", Class: "not-modelled"}, mj.Text("]")}
 		case "publishing":
 			// a function that declares a variable through the Runtime API (LetGlobal): visible to the rest of
 			// this execution only, whatever VarMap (nil or not) the caller passed
@@ -184,7 +195,7 @@ func genC10(t *rapid.T) c10Case {
 	for i := 0; i < ncalls; i++ {
 		c.Calls = append(c.Calls, c10Call{
 			Entry: c10EntryOf(c.Kinds, rapid.IntRange(0, n-1).Draw(t, "entry")),
-			Data:  rapid.IntRange(0, 4).Draw(t, "data"),
+			Data:  rapid.IntRange(0, 5).Draw(t, "data"),
 			Vars:  rapid.IntRange(0, 1).Draw(t, "vars"),
 			// sometimes the destination fails after a few bytes (a connection that breaks mid-response)
 			WriterFailsAfter: []int{0, 0, 0, 0, 1, 7, 30}[rapid.IntRange(0, 6).Draw(t, "writerFault")],
@@ -315,7 +326,7 @@ func judgeC10(c c10Case) (v core.Verdict) {
 	}
 	tplOf := func(call c10Call) *jet.Template { return tpls[fmt.Sprintf("%d:%s", call.Set, call.Entry)] }
 	// the data values are built once: some templates print '.', and pointers print as addresses
-	datas := []interface{}{nil, "D<1>&", map[string]interface{}{"k": "D\"2'"}, &c10Emb{c10PEmb: &c10PEmb{PName: "promoted"}, Name: "emb"}, &c10Emb{Name: "emb-nil"}}
+	datas := []interface{}{nil, "D<1>&", map[string]interface{}{"k": "D\"2'"}, &c10Emb{c10PEmb: &c10PEmb{PName: "promoted"}, Name: "emb"}, &c10Emb{Name: "emb-nil"}, c10Emb{c10PEmb: &c10PEmb{PName: "promoted-v"}, Name: "emb-by-value"}}
 	exec := func(call c10Call) jetrun.Outcome {
 		data := datas[call.Data]
 		var vars jet.VarMap
